@@ -351,7 +351,9 @@ nni_id_alloc32(nni_id_map *m, uint32_t *idp, void *val)
 {
 	uint64_t id;
 	int      rv;
-	rv = nni_id_alloc(m, &id, val);
+	if ((rv = nni_id_alloc(m, &id, val)) != 0) {
+		return (rv);
+	}
 	NNI_ASSERT(id < (1ULL << 32));
 	*idp = (uint32_t) id;
 	return (rv);
